@@ -56,3 +56,27 @@ Example ex_await_when :
   /\ compile SWhen (And [Atom 0; Atom 1]) = Some (POr [BAnd [0; 1] 2])
   /\ compile SAwait (And [Atom 0; Atom 1]) = Some (PSingle (BAnd [0; 1] 2)).
 Proof. repeat split. Qed.
+
+(* ---------- failure side / several `when` cases ---------- *)
+From NG Require Import V2.GroupsFail V2.GroupsFail_proofs.
+
+(* when (f0 and f1) or f2 ... or when f2 and f3 : hypotheses of C07_cases_fail are inhabited,
+   members fail and finish interleaved *)
+Definition ex_cases : list (formula nat) := [Or [And [Atom 0; Atom 1]; Atom 2]; And [Atom 2; Atom 3]].
+
+Example ex_cases_fail :
+  stmt_ok nat SWhen ex_cases /\ ex_cases <> []
+  /\ (forall f, In f ex_cases -> eval (fun _ => false) f = false)
+  /\ (forall f, In f ex_cases -> eval (fun _ => true) f = true)
+  (* f2 stopped, f0 finishes, f3 stopped (case 1 dead), f1 finishes -> case 0 *)
+  /\ frun ex_mt ex_fl SWhen ex_cases [(2, false); (0, true); (3, false); (1, true)] = FoDone 4 [0]
+  (* f2 stopped, f0 stopped -> every alternative of every case has a failed member *)
+  /\ frun ex_mt ex_fl SWhen ex_cases [(2, false); (0, false); (1, true)] = FoFail 2
+  (* f3 then f2 finish -> both cases hold in step 2 *)
+  /\ frun ex_mt ex_fl SWhen ex_cases [(3, true); (2, true)] = FoDone 2 [0; 1].
+Proof.
+  split; [left; reflexivity|]. split; [discriminate|].
+  split; [intros f [<-|[<-|[]]]; reflexivity|].
+  split; [intros f [<-|[<-|[]]]; reflexivity|].
+  repeat split.
+Qed.
